@@ -799,7 +799,8 @@ static std::string ops_state() {
   for (Section* sec : code.sections()) {
     size_t nl = strnlen(sec->name(), 36);
     s += (nl ? vh::bytes_to_hex((const uint8_t*)sec->name(), nl) : std::string("-")) + ":" + std::to_string(sec->alignment()) + ":" +
-         std::to_string(sec->order()) + ":" + std::to_string(sec->buffer_size()) + ":" + std::to_string(sec->virtual_size()) + ",";
+         std::to_string(sec->order()) + ":" + std::to_string(sec->buffer_size()) + ":" + std::to_string(sec->virtual_size()) + ":";
+    { vh::Fnv fb; fb.add(std::string((const char*)sec->buffer().data(), sec->buffer().size())); s += vh::to_hex(fb.h) + ","; }
   }
   s += " O=";
   for (Section* sec : code.sections_by_order()) s += std::to_string(sec->section_id()) + ",";
